@@ -291,7 +291,7 @@ def positions(rows, cols, mutator):
                 st.sampled_from([lim, lim + 1])]
         if not mutator:
             opts.append(st.just(lim - 1))
-            opts.append(st.integers(n, far_cap))
+            opts.append(st.integers(min(n, far_cap), far_cap))
         return st.one_of(*opts)
 
     return st.tuples(axis(rows, MAX_ROW, 1200), axis(cols, MAX_COL, 999))
